@@ -28,13 +28,17 @@ inductive CorrV where
   | str (b : Bytes)
   | num (n : Nat)
   | ip4 (b : Bytes)
+  | ip6 (b : Bytes)
   deriving DecidableEq, Repr, Inhabited
 
-/-- "empty" in the sense of correlateRecords: "", 0, 0.0.0.0 -/
+def zero16 : Bytes := List.replicate 16 0
+
+/-- "empty" in the sense of correlateRecords: "", 0, 0.0.0.0, :: -/
 def CorrV.isEmpty : CorrV → Bool
   | .str b => b.isEmpty
   | .num n => n == 0
   | .ip4 b => b == [0, 0, 0, 0]
+  | .ip6 b => b == zero16
 
 /-- positions in the correlate-field vector -/
 def iSrcPod : Nat := 0
